@@ -15,13 +15,21 @@
      * time unit: lam_c = log(lam_d)/dt  =>  dt/k multiplies lam_c and fn by k, leaves xi (and the shapes, which do not
        see dt) unchanged; every frequency grid of the code is homogeneous of degree 1 in fs; omega_j*dt of the pLSCF
        basis is free of fs.
-   NOT proved (C08_full_statement below, a Definition that asserts nothing): that for noisy data the result does not
-   depend on WHICH contract-meeting decomposition LAPACK returns (needs uniqueness of singular subspaces under a gap
-   of the singular values); proved only in the exact-rank case (C08_svd_span_exact_rank_partial).                     *)
-From Coq Require Import List Arith Lia Ring Field ZArith QArith Qcanon Reals.
-From PyOMA.Base Require Import Carrier FMat Cplx.
+   Composed END TO END for the covariance-driven SSI pipeline in the EXACT-RANK case (C08_pipeline_*, proofs in
+   Proofs/P_covar_pipeline.v): H an exact rank-n Hankel matrix of a system (A, C) with a complete complex modal basis and
+   pairwise different poles; run 1 on H and run 2 on the transformed matrix, each with ANY contract-meeting SVD triple, ANY
+   square roots of the singular values, ANY left inverse in the shift solve and ANY full eigen-decomposition.  Then the pole
+   list of run 2 is a Permutation of that of run 1 (also as continuous poles after a change of time unit: multiplied by
+   k), every mode has exactly one partner with the same pole, and the partner shapes are identical after unity
+   normalisation (gain; also no transformation at all = independence from the SVD choice), the permuted normalised
+   shape (channel permutation, largest modulus attained once), proportional to the rotated shape (orthogonal mixing).
+   Stated on the matrices and on the data (hank_mm, hank_R).
+   NOT proved (C08_full_statement below, a Definition that asserts nothing): the same independence from the decomposition
+   LAPACK returns on NOISY, full-rank data (needs uniqueness of singular subspaces under a gap of the singular values). *)
+From Coq Require Import List Arith Lia Ring Field ZArith QArith Qcanon Reals Permutation.
+From PyOMA.Base Require Import Carrier FMat Cplx EigCount Show.
 From PyOMA.Model Require Import M_hankel M_covar.
-From PyOMA.Proofs Require Import P_hankel P_covar.
+From PyOMA.Proofs Require Import P_hankel P_covar P_covar_pipeline.
 Import ListNotations.
 
 Section S.
@@ -219,10 +227,215 @@ Theorem C08_ac2mp_dt_scale : forall (logl:Cplx.C R) (dt k:R), (0 < dt)%R -> (0 <
   xi_R (lamc cvROps logl (dt / k)%R) = xi_R (lamc cvROps logl dt).
 Proof. exact ac2mp_dt_scale. Qed.
 
+(* ---------------- the whole covariance-driven SSI pipeline, exact-rank case ----------------
+   Vocabulary (Proofs/P_covar_pipeline.v):
+     exact_sys rows cols l n H Ob Gam OL GR A C   H = Ob Gam, OL Ob = I, Gam GR = I, Ob[l:] = Ob[:-l] A, Ob[:l] = C
+     svd_run rows cols k n H U S V sq sqi         (U,S,V) meets svd_contract for H, S j = 0 for n <= j < k,
+                                                  sq j * sq j = S j and sq j * sqi j = 1 for j < n
+     ident_A rows l L U sq = L Obs[l:] , ident_C U sq = Obs  with Obs = U sqrt(S) (cv_obs), L any left inverse of Obs[:-l]
+     modal_basis n A Phi Phii lam                 A Phi = Phi diag(lam) over the complex pairs, Phi two-sided invertible,
+                                                  lam pairwise different
+     eig_run n Ah Vv W d                          Ah Vv = Vv diag(d), W Vv = I
+     two_runs .. A H H' (run 1) (run 2) ..        svd_run + left inverse for H and for H', modal_basis, eig_run for both A_n
+     shape_of l n Ch Vv k                         column k of Ch Vv as a list of l complex components
+     poles_shapes_agree l n d d' rel              Permutation (tab n d') (tab n d); for every complex logarithm clog and
+                                                  dt, kk <> 0 the lists lamc (clog d') (dt/kk) and kk * lamc (clog d) dt are a
+                                                  Permutation; every k < n has exactly one k' < n with d' k' = d k, and rel k k'
+     rel_gain / rel_mix / rel_perm                shape' k' = s * shape k (s <> 0) and equal unity normalisations / the same
+                                                  against the rotated shape Q (Ch Vv)[:,k] / against the permuted shape, with
+                                                  unorm shape' = vperm (unorm shape) when the largest modulus is attained once *)
+Section PipeRing.
+Variable R:Type. Variable K:Ops R.
+Hypothesis Rth : ring_theory (o0 K) (o1 K) (oadd K) (omul K) (osub K) (oopp K) (@eq R).
+Local Open Scope K_scope.
+Notation "0" := (o0 K) : K_scope. Notation "1" := (o1 K) : K_scope.
+Infix "+" := (oadd K) : K_scope. Infix "*" := (omul K) : K_scope.
+
+(* whatever triple, square roots and left inverse: the identified pair is similar to the true one *)
+Theorem C08_pipeline_ident_similar : forall rows cols l k n (H Ob Gam OL GR A C U V L:fmat R) (S sq sqi:nat->R),
+  exact_sys R K rows cols l n H Ob Gam OL GR A C ->
+  svd_run R K rows cols k n H U S V sq sqi ->
+  feq n n (fmul K (rows - l) L (cv_obs K U sq)) (fid K) ->
+  exists T Ti, P_realise.similar_pair R K l n A C (ident_A R K rows l L U sq) (ident_C R K U sq) T Ti.
+Proof. exact (ident_similar R K Rth). Qed.
+(* the transformed matrices are exact Hankel matrices of (A, g C) resp. (A, Q C) *)
+Theorem C08_pipeline_exact_sys_gain : forall rows cols l n (H Ob Gam OL GR A C:fmat R) g gi, g * gi = 1 ->
+  exact_sys R K rows cols l n H Ob Gam OL GR A C ->
+  exact_sys R K rows cols l n (fscal K (g*g) H) (fscal K g Ob) (fscal K g Gam) (fscal K gi OL) (fscal K gi GR) A (fscal K g C).
+Proof. exact (exact_sys_gain R K Rth). Qed.
+Theorem C08_pipeline_exact_sys_mix : forall l r br n (H Ob Gam OL GR A C Q Qr:fmat R), (0 < l)%nat -> (0 < r)%nat ->
+  feq l l (fmul K l (ftr Q) Q) (fid K) -> feq r r (fmul K r (ftr Qr) Qr) (fid K) ->
+  exact_sys R K (hank_rows l br) (hank_cols r br) l n H Ob Gam OL GR A C ->
+  exact_sys R K (hank_rows l br) (hank_cols r br) l n
+    (fmul K (hank_cols r br) (fmul K (hank_rows l br) (kronI K l Q) H) (ftr (kronI K r Qr)))
+    (fmul K (hank_rows l br) (kronI K l Q) Ob) (fmul K (hank_cols r br) Gam (ftr (kronI K r Qr)))
+    (fmul K (hank_rows l br) OL (ftr (kronI K l Q))) (fmul K (hank_cols r br) (kronI K r Qr) GR)
+    A (fmul K l Q C).
+Proof. exact (exact_sys_mix R K Rth). Qed.
+(* a channel permutation is the mixing with its permutation matrix (links C08_hank_perm_* to C08_hank_mix_kron) *)
+Theorem C08_hank_perm_is_mix : forall l r br pi rho (H:fmat R),
+  (forall a, (a < l)%nat -> (pi a < l)%nat) -> (forall b, (b < r)%nat -> (rho b < r)%nat) ->
+  feq (hank_rows l br) (hank_cols r br) (hank_perm_rhs l r pi rho H) (hank_mix_rhs K l r (pmat K pi) (pmat K rho) H).
+Proof. exact (hank_perm_is_mix R K Rth). Qed.
+End PipeRing.
+
+Section Pipe.
+Variable R:Type. Variable K:Ops R.
+Hypothesis Fth : field_theory (o0 K) (o1 K) (oadd K) (omul K) (osub K) (oopp K) (odiv K) (oinv K) (@eq R).
+Hypothesis Hreal : forall a b:R, oadd K (omul K a a) (omul K b b) = o0 K -> a = o0 K.
+Local Open Scope K_scope.
+Notation "0" := (o0 K) : K_scope. Notation "1" := (o1 K) : K_scope.
+Infix "+" := (oadd K) : K_scope. Infix "*" := (omul K) : K_scope.
+Variable ltb : R -> R -> bool.
+Hypothesis lt_irrefl : forall a, ltb a a = false.
+Hypothesis lt_trans : forall a b c, ltb a b = true -> ltb b c = true -> ltb a c = true.
+Hypothesis lt_tricho : forall a b, ltb a b = false -> ltb b a = false -> a = b.
+Hypothesis lt_mul_pos : forall c a b, ltb 0 c = true -> ltb (c*a) (c*b) = ltb a b.
+Hypothesis sq_nonneg : forall a b, ltb (a*a + b*b) 0 = false.
+
+(* (0) same matrix, two arbitrary sets of kernel answers: the result does not depend on the SVD the kernel returns *)
+Theorem C08_pipeline_svd_choice : forall rows cols l n k1 k2 (H Ob Gam OL GR A Cm:fmat R)
+    U V L S sq sqi U' V' L' S' sq' sqi' Phi Phii Vv W Vv' W' lam d d',
+  exact_sys R K rows cols l n H Ob Gam OL GR A Cm ->
+  two_runs R K rows cols l n k1 k2 A H H U V L S sq sqi U' V' L' S' sq' sqi' Phi Phii Vv W Vv' W' lam d d' ->
+  poles_shapes_agree R K l n d d' (rel_gain R K ltb l n (ident_C R K U sq) Vv (ident_C R K U' sq') Vv').
+Proof. exact (pipeline_svd_choice R K Fth Hreal ltb lt_irrefl lt_tricho lt_mul_pos sq_nonneg). Qed.
+
+(* (i) common gain g (g * gi = 1): H' = g^2 H *)
+Theorem C08_pipeline_gain : forall rows cols l n k1 k2 (H Ob Gam OL GR A Cm:fmat R) (g gi:R)
+    U V L S sq sqi U' V' L' S' sq' sqi' Phi Phii Vv W Vv' W' lam d d',
+  g * gi = 1 ->
+  exact_sys R K rows cols l n H Ob Gam OL GR A Cm ->
+  two_runs R K rows cols l n k1 k2 A H (fscal K (g*g) H) U V L S sq sqi U' V' L' S' sq' sqi' Phi Phii Vv W Vv' W' lam d d' ->
+  poles_shapes_agree R K l n d d' (rel_gain R K ltb l n (ident_C R K U sq) Vv (ident_C R K U' sq') Vv').
+Proof. exact (pipeline_gain R K Fth Hreal ltb lt_irrefl lt_tricho lt_mul_pos sq_nonneg). Qed.
+
+(* (ii) orthogonal mixing Q of the channels, Qr of the references: H' = (I (x) Q) H (I (x) Qr)^T = hank_mix_rhs Q Qr H *)
+Theorem C08_pipeline_mix : forall l r br n k1 k2 (H Ob Gam OL GR A Cm Q Qr:fmat R)
+    U V L S sq sqi U' V' L' S' sq' sqi' Phi Phii Vv W Vv' W' lam d d',
+  (0 < l)%nat -> (0 < r)%nat ->
+  feq l l (fmul K l (ftr Q) Q) (fid K) -> feq r r (fmul K r (ftr Qr) Qr) (fid K) ->
+  exact_sys R K (hank_rows l br) (hank_cols r br) l n H Ob Gam OL GR A Cm ->
+  two_runs R K (hank_rows l br) (hank_cols r br) l n k1 k2 A H (hank_mix_rhs K l r Q Qr H)
+           U V L S sq sqi U' V' L' S' sq' sqi' Phi Phii Vv W Vv' W' lam d d' ->
+  poles_shapes_agree R K l n d d' (rel_mix R K ltb l n Q (ident_C R K U sq) Vv (ident_C R K U' sq') Vv').
+Proof. exact (pipeline_mix R K Fth Hreal ltb lt_irrefl lt_tricho lt_mul_pos sq_nonneg). Qed.
+
+(* (ii') channel permutation pi, reference permutation rho: H' = hank_perm_rhs pi rho H *)
+Theorem C08_pipeline_perm : forall l r br n k1 k2 (H Ob Gam OL GR A Cm:fmat R) (pi pinv rho rhoinv:nat -> nat)
+    U V L S sq sqi U' V' L' S' sq' sqi' Phi Phii Vv W Vv' W' lam d d',
+  (forall a, (a < l)%nat -> (pi a < l)%nat /\ pinv (pi a) = a) ->
+  (forall c, (c < l)%nat -> (pinv c < l)%nat /\ pi (pinv c) = c) ->
+  (forall a, (a < r)%nat -> (rho a < r)%nat /\ rhoinv (rho a) = a) ->
+  (forall c, (c < r)%nat -> (rhoinv c < r)%nat /\ rho (rhoinv c) = c) ->
+  (0 < l)%nat -> (0 < r)%nat ->
+  exact_sys R K (hank_rows l br) (hank_cols r br) l n H Ob Gam OL GR A Cm ->
+  two_runs R K (hank_rows l br) (hank_cols r br) l n k1 k2 A H (hank_perm_rhs l r pi rho H)
+           U V L S sq sqi U' V' L' S' sq' sqi' Phi Phii Vv W Vv' W' lam d d' ->
+  poles_shapes_agree R K l n d d' (rel_perm R K ltb l n pi (ident_C R K U sq) Vv (ident_C R K U' sq') Vv').
+Proof. exact (pipeline_perm R K Fth Hreal ltb lt_irrefl lt_trans lt_tricho lt_mul_pos sq_nonneg). Qed.
+
+(* the same on the DATA, methods cov_mm (hank_mm) and cov_R (hank_R): run 1 on Hankel(Y, Yref), run 2 on
+   Hankel(g Y, g Yref) / Hankel(Q Y, Qr Yref) / Hankel(Y[pi], Yref[rho]) *)
+Theorem C08_pipeline_gain_mm : forall invN l r br Ndat n k1 k2 (Y Yref:sig R) (Ob Gam OL GR A Cm:fmat R) (g gi:R)
+    U V L S sq sqi U' V' L' S' sq' sqi' Phi Phii Vv W Vv' W' lam d d',
+  g * gi = 1 ->
+  exact_sys R K (hank_rows l br) (hank_cols r br) l n (hank_mm K invN l r br Ndat Y Yref) Ob Gam OL GR A Cm ->
+  two_runs R K (hank_rows l br) (hank_cols r br) l n k1 k2 A
+           (hank_mm K invN l r br Ndat Y Yref) (hank_mm K invN l r br Ndat (sgain K g Y) (sgain K g Yref))
+           U V L S sq sqi U' V' L' S' sq' sqi' Phi Phii Vv W Vv' W' lam d d' ->
+  poles_shapes_agree R K l n d d' (rel_gain R K ltb l n (ident_C R K U sq) Vv (ident_C R K U' sq') Vv').
+Proof.
+  exact (fun invN l r br Ndat => pipeline_gain_data R K Fth Hreal ltb lt_irrefl lt_tricho lt_mul_pos sq_nonneg
+           _ _ _ _ l r br (hank_mm K invN l r br Ndat) (hank_mm_is_gen R K (F_R Fth) invN l r br Ndat)).
+Qed.
+Theorem C08_pipeline_gain_R : forall invn l r br Ndat n k1 k2 (Y Yref:sig R) (Ob Gam OL GR A Cm:fmat R) (g gi:R)
+    U V L S sq sqi U' V' L' S' sq' sqi' Phi Phii Vv W Vv' W' lam d d',
+  g * gi = 1 ->
+  exact_sys R K (hank_rows l br) (hank_cols r br) l n (hank_R K invn l r br Ndat Y Yref) Ob Gam OL GR A Cm ->
+  two_runs R K (hank_rows l br) (hank_cols r br) l n k1 k2 A
+           (hank_R K invn l r br Ndat Y Yref) (hank_R K invn l r br Ndat (sgain K g Y) (sgain K g Yref))
+           U V L S sq sqi U' V' L' S' sq' sqi' Phi Phii Vv W Vv' W' lam d d' ->
+  poles_shapes_agree R K l n d d' (rel_gain R K ltb l n (ident_C R K U sq) Vv (ident_C R K U' sq') Vv').
+Proof.
+  exact (fun invn l r br Ndat => pipeline_gain_data R K Fth Hreal ltb lt_irrefl lt_tricho lt_mul_pos sq_nonneg
+           _ _ _ _ l r br (hank_R K invn l r br Ndat) (hank_R_is_gen R K (F_R Fth) invn l r br Ndat)).
+Qed.
+Theorem C08_pipeline_mix_mm : forall invN l r br Ndat n k1 k2 (Y Yref:sig R) (Ob Gam OL GR A Cm Q Qr:fmat R)
+    U V L S sq sqi U' V' L' S' sq' sqi' Phi Phii Vv W Vv' W' lam d d',
+  (0 < l)%nat -> (0 < r)%nat ->
+  feq l l (fmul K l (ftr Q) Q) (fid K) -> feq r r (fmul K r (ftr Qr) Qr) (fid K) ->
+  exact_sys R K (hank_rows l br) (hank_cols r br) l n (hank_mm K invN l r br Ndat Y Yref) Ob Gam OL GR A Cm ->
+  two_runs R K (hank_rows l br) (hank_cols r br) l n k1 k2 A
+           (hank_mm K invN l r br Ndat Y Yref) (hank_mm K invN l r br Ndat (smix K l Q Y) (smix K r Qr Yref))
+           U V L S sq sqi U' V' L' S' sq' sqi' Phi Phii Vv W Vv' W' lam d d' ->
+  poles_shapes_agree R K l n d d' (rel_mix R K ltb l n Q (ident_C R K U sq) Vv (ident_C R K U' sq') Vv').
+Proof.
+  exact (fun invN l r br Ndat => pipeline_mix_data R K Fth Hreal ltb lt_irrefl lt_tricho lt_mul_pos sq_nonneg
+           _ _ _ _ l r br (hank_mm K invN l r br Ndat) (hank_mm_is_gen R K (F_R Fth) invN l r br Ndat)).
+Qed.
+Theorem C08_pipeline_mix_R : forall invn l r br Ndat n k1 k2 (Y Yref:sig R) (Ob Gam OL GR A Cm Q Qr:fmat R)
+    U V L S sq sqi U' V' L' S' sq' sqi' Phi Phii Vv W Vv' W' lam d d',
+  (0 < l)%nat -> (0 < r)%nat ->
+  feq l l (fmul K l (ftr Q) Q) (fid K) -> feq r r (fmul K r (ftr Qr) Qr) (fid K) ->
+  exact_sys R K (hank_rows l br) (hank_cols r br) l n (hank_R K invn l r br Ndat Y Yref) Ob Gam OL GR A Cm ->
+  two_runs R K (hank_rows l br) (hank_cols r br) l n k1 k2 A
+           (hank_R K invn l r br Ndat Y Yref) (hank_R K invn l r br Ndat (smix K l Q Y) (smix K r Qr Yref))
+           U V L S sq sqi U' V' L' S' sq' sqi' Phi Phii Vv W Vv' W' lam d d' ->
+  poles_shapes_agree R K l n d d' (rel_mix R K ltb l n Q (ident_C R K U sq) Vv (ident_C R K U' sq') Vv').
+Proof.
+  exact (fun invn l r br Ndat => pipeline_mix_data R K Fth Hreal ltb lt_irrefl lt_tricho lt_mul_pos sq_nonneg
+           _ _ _ _ l r br (hank_R K invn l r br Ndat) (hank_R_is_gen R K (F_R Fth) invn l r br Ndat)).
+Qed.
+Theorem C08_pipeline_perm_mm : forall invN l r br Ndat n k1 k2 (Y Yref:sig R) (Ob Gam OL GR A Cm:fmat R) (pi pinv rho rhoinv:nat -> nat)
+    U V L S sq sqi U' V' L' S' sq' sqi' Phi Phii Vv W Vv' W' lam d d',
+  (forall a, (a < l)%nat -> (pi a < l)%nat /\ pinv (pi a) = a) ->
+  (forall c, (c < l)%nat -> (pinv c < l)%nat /\ pi (pinv c) = c) ->
+  (forall a, (a < r)%nat -> (rho a < r)%nat /\ rhoinv (rho a) = a) ->
+  (forall c, (c < r)%nat -> (rhoinv c < r)%nat /\ rho (rhoinv c) = c) ->
+  (0 < l)%nat -> (0 < r)%nat ->
+  exact_sys R K (hank_rows l br) (hank_cols r br) l n (hank_mm K invN l r br Ndat Y Yref) Ob Gam OL GR A Cm ->
+  two_runs R K (hank_rows l br) (hank_cols r br) l n k1 k2 A
+           (hank_mm K invN l r br Ndat Y Yref) (hank_mm K invN l r br Ndat (sperm pi Y) (sperm rho Yref))
+           U V L S sq sqi U' V' L' S' sq' sqi' Phi Phii Vv W Vv' W' lam d d' ->
+  poles_shapes_agree R K l n d d' (rel_perm R K ltb l n pi (ident_C R K U sq) Vv (ident_C R K U' sq') Vv').
+Proof.
+  exact (fun invN l r br Ndat => pipeline_perm_data R K Fth Hreal ltb lt_irrefl lt_trans lt_tricho lt_mul_pos sq_nonneg
+           _ _ _ _ l r br (hank_mm K invN l r br Ndat) (hank_mm_is_gen R K (F_R Fth) invN l r br Ndat)).
+Qed.
+Theorem C08_pipeline_perm_R : forall invn l r br Ndat n k1 k2 (Y Yref:sig R) (Ob Gam OL GR A Cm:fmat R) (pi pinv rho rhoinv:nat -> nat)
+    U V L S sq sqi U' V' L' S' sq' sqi' Phi Phii Vv W Vv' W' lam d d',
+  (forall a, (a < l)%nat -> (pi a < l)%nat /\ pinv (pi a) = a) ->
+  (forall c, (c < l)%nat -> (pinv c < l)%nat /\ pi (pinv c) = c) ->
+  (forall a, (a < r)%nat -> (rho a < r)%nat /\ rhoinv (rho a) = a) ->
+  (forall c, (c < r)%nat -> (rhoinv c < r)%nat /\ rho (rhoinv c) = c) ->
+  (0 < l)%nat -> (0 < r)%nat ->
+  exact_sys R K (hank_rows l br) (hank_cols r br) l n (hank_R K invn l r br Ndat Y Yref) Ob Gam OL GR A Cm ->
+  two_runs R K (hank_rows l br) (hank_cols r br) l n k1 k2 A
+           (hank_R K invn l r br Ndat Y Yref) (hank_R K invn l r br Ndat (sperm pi Y) (sperm rho Yref))
+           U V L S sq sqi U' V' L' S' sq' sqi' Phi Phii Vv W Vv' W' lam d d' ->
+  poles_shapes_agree R K l n d d' (rel_perm R K ltb l n pi (ident_C R K U sq) Vv (ident_C R K U' sq') Vv').
+Proof.
+  exact (fun invn l r br Ndat => pipeline_perm_data R K Fth Hreal ltb lt_irrefl lt_trans lt_tricho lt_mul_pos sq_nonneg
+           _ _ _ _ l r br (hank_R K invn l r br Ndat) (hank_R_is_gen R K (F_R Fth) invn l r br Ndat)).
+Qed.
+End Pipe.
+
 (* ---------------- the remainder, written down but NOT proved (asserts nothing) ----------------
-   Independence from the decomposition LAPACK picks on noisy (full-rank) data: two FULL decompositions of the same
-   matrix, truncated at an order [ord] that separates the retained singular values from the discarded ones, span the
-   same column space (hence give similar realisations, the same poles and, by C08_unity_norm_scale, the same shapes). *)
+   What the C08_pipeline_* theorems above do NOT cover is NOISY, FULL-RANK data: there H is not of rank n, the code still
+   truncates the decomposition at an order [ord], the discarded singular values are not zero, and the identified pair is no
+   longer similar to a "true" system.  Covariance of the result then needs independence from the decomposition LAPACK picks
+   WITHOUT the exact-rank hypothesis: two FULL decompositions of the same matrix, truncated at an order [ord] that separates
+   the retained singular values from the discarded ones, span the same column space (singular subspaces are unique under a
+   gap; within a cluster of equal singular values only the subspace is).  From that statement the rest would follow exactly
+   as in the exact-rank case: U2[:, :ord] = U[:, :ord] T gives Obs2 = Obs T' (T' = sqrt(S)^-1 T sqrt(S), retained singular
+   values equal), hence similar realisations (FMat.shift_invariance_similarity), hence by Base/EigCount.v the same pole
+   list up to order and proportional shapes, hence by C08_unity_norm_scale / _perm the same normalised shapes; the gain
+   and mixing cases then reduce to it through C08_svd_gain / C08_svd_orth (the transported triple is ONE decomposition
+   of the transformed matrix).  Missing for the statement below: an eigen-space argument for H^T H (orthogonality of
+   singular vectors belonging to different singular values), i.e. spectral theory of symmetric matrices over an ordered
+   field, which this development does not have.  Also outside every C08 theorem: floating-point rounding, and the
+   data-dependent choices made AFTER the pole table (stabilisation thresholds, pole selection), which are C10/C11. *)
 Definition C08_full_statement : Prop :=
   forall (R:Type) (K:Ops R),
   field_theory (o0 K) (o1 K) (oadd K) (omul K) (osub K) (oopp K) (odiv K) (oinv K) (@eq R) ->
@@ -267,6 +480,20 @@ Print Assumptions C08_mp_scale.
 Print Assumptions C08_grid_scale.
 Print Assumptions C08_basis_arg_fs_free.
 Print Assumptions C08_ac2mp_dt_scale.
+Print Assumptions C08_pipeline_ident_similar.
+Print Assumptions C08_pipeline_exact_sys_gain.
+Print Assumptions C08_pipeline_exact_sys_mix.
+Print Assumptions C08_hank_perm_is_mix.
+Print Assumptions C08_pipeline_svd_choice.
+Print Assumptions C08_pipeline_gain.
+Print Assumptions C08_pipeline_mix.
+Print Assumptions C08_pipeline_perm.
+Print Assumptions C08_pipeline_gain_mm.
+Print Assumptions C08_pipeline_gain_R.
+Print Assumptions C08_pipeline_mix_mm.
+Print Assumptions C08_pipeline_mix_R.
+Print Assumptions C08_pipeline_perm_mm.
+Print Assumptions C08_pipeline_perm_R.
 
 (* ---------------- non-vacuity ---------------- *)
 (* l=3 channels, r=1 reference, br=1, Ndat=8: gain 3 and the cyclic channel permutation on integer data *)
@@ -304,3 +531,52 @@ Example C08_example_svd :
 Proof.
   cbv zeta. repeat split; intros i j Hi Hj; (destruct i as [|[|i]]; [| |lia]); (destruct j as [|[|j]]; [| |lia]); reflexivity.
 Qed.
+
+(* ---------------- non-vacuity of the composed pipeline theorems ----------------
+   l = 2 channels, r = 2 references, br = 1 (H is 4 x 4), n = 2, three singular triplets (the third zero).  True system
+   A = [[1/4,1/3],[-1/3,1/4]] (poles 1/4 +- i/3), C = I.  The two non-zero singular values are EQUAL, so the decomposition is
+   far from unique: run 2 uses singular vectors reflected inside the singular subspace, another third vector and a NEGATIVE
+   square root; the eigen-solver outputs list the poles in different orders with differently scaled eigenvectors. *)
+(* every hypothesis of C08_pipeline_gain (gain 3) ... *)
+Example C08_example_pipeline_gain_hyps :
+  (q 3 1 * q 1 3)%Qc = 1%Qc /\
+  exact_sys Qc QcOps 4 4 2 2 plx_H plx_Ob plx_Gam plx_OL plx_GR plx_A plx_Cm /\
+  two_runs Qc QcOps 4 4 2 2 3 3 plx_A plx_H (fscal QcOps (q 3 1 * q 3 1)%Qc plx_H)
+    plx_U plx_V plx_L plx_S plx_sq plx_sqi plx_Ug plx_Vg plx_Lg plx_Sg plx_sqg plx_sqig
+    plx_Phi plx_Phii plx_Vv plx_W plx_Vvg plx_Wg plx_lam plx_d plx_dg.
+Proof. exact plx_gain_hyps. Qed.
+(* ... and of C08_pipeline_perm (both channels and both references swapped) hold on the instance *)
+Example C08_example_pipeline_perm_hyps :
+  (forall a, (a < 2)%nat -> (plx_swap a < 2)%nat /\ plx_swap (plx_swap a) = a) /\
+  exact_sys Qc QcOps (hank_rows 2 1) (hank_cols 2 1) 2 2 plx_H plx_Ob plx_Gam plx_OL plx_GR plx_A plx_Cm /\
+  two_runs Qc QcOps (hank_rows 2 1) (hank_cols 2 1) 2 2 3 3 plx_A plx_H (hank_perm_rhs 2 2 plx_swap plx_swap plx_H)
+    plx_U plx_V plx_L plx_S plx_sq plx_sqi plx_Up plx_Vp plx_Lp plx_Sp plx_sqp plx_sqip
+    plx_Phi plx_Phii plx_Vv plx_W plx_Vvp plx_Wp plx_lam plx_d plx_dp.
+Proof. exact plx_perm_hyps. Qed.
+(* the carrier hypotheses hold at the canonical rationals *)
+Example C08_example_pipeline_carrier :
+  (forall a b:Qc, oadd QcOps (omul QcOps a a) (omul QcOps b b) = o0 QcOps -> a = o0 QcOps) /\
+  (forall a, Qc_ltb a a = false) /\
+  (forall a b c, Qc_ltb a b = true -> Qc_ltb b c = true -> Qc_ltb a c = true) /\
+  (forall a b, Qc_ltb a b = false -> Qc_ltb b a = false -> a = b) /\
+  (forall c a b, Qc_ltb (o0 QcOps) c = true -> Qc_ltb (omul QcOps c a) (omul QcOps c b) = Qc_ltb a b) /\
+  (forall a b, Qc_ltb (oadd QcOps (omul QcOps a a) (omul QcOps b b)) (o0 QcOps) = false).
+Proof. exact (conj qc_formally_real (conj Qc_lt_irrefl (conj Qc_lt_trans (conj Qc_lt_tricho (conj Qc_lt_mul_pos Qc_sq_nonneg))))). Qed.
+(* so the theorems fire on it ... *)
+Example C08_example_pipeline_fires :
+  poles_shapes_agree Qc QcOps 2 2 plx_d plx_dg
+    (rel_gain Qc QcOps Qc_ltb 2 2 (ident_C Qc QcOps plx_U plx_sq) plx_Vv (ident_C Qc QcOps plx_Ug plx_sqg) plx_Vvg) /\
+  poles_shapes_agree Qc QcOps 2 2 plx_d plx_dp
+    (rel_perm Qc QcOps Qc_ltb 2 2 plx_swap (ident_C Qc QcOps plx_U plx_sq) plx_Vv (ident_C Qc QcOps plx_Up plx_sqp) plx_Vvp).
+Proof. exact (conj plx_gain_fires plx_perm_fires). Qed.
+(* ... and what they assert is visible by evaluation: mode 1 of run 1 and mode 0 of the gained run carry the same pole and the
+   same unity-normalised shape (1, i); mode 1 of the swapped run has the swapped shape, normalised to (1, -i) *)
+Example C08_example_pipeline_evaluated :
+  plx_d 1%nat = plx_dg 0%nat /\ plx_d 1%nat = plx_dp 1%nat /\
+  plx_sh (unity_norm_Qc (shape_of Qc QcOps 2 2 (ident_C Qc QcOps plx_Ug plx_sqg) plx_Vvg 0))
+    = plx_sh (unity_norm_Qc (shape_of Qc QcOps 2 2 (ident_C Qc QcOps plx_U plx_sq) plx_Vv 1)) /\
+  plx_sh (unity_norm_Qc (shape_of Qc QcOps 2 2 (ident_C Qc QcOps plx_U plx_sq) plx_Vv 1)) = Some [(1, 0); (0, 1)]%Q /\
+  plx_sh (unity_norm_Qc (shape_of Qc QcOps 2 2 (ident_C Qc QcOps plx_Up plx_sqp) plx_Vvp 1))
+    = plx_sh (unity_norm_Qc (cv_vperm QcOps plx_swap 2 (shape_of Qc QcOps 2 2 (ident_C Qc QcOps plx_U plx_sq) plx_Vv 1))) /\
+  plx_sh (unity_norm_Qc (shape_of Qc QcOps 2 2 (ident_C Qc QcOps plx_Up plx_sqp) plx_Vvp 1)) = Some [(1, 0); (0, -1)]%Q.
+Proof. exact plx_evaluated. Qed.
